@@ -42,8 +42,9 @@ impl Rep {
 pub fn run(obligation: &str) -> i32 {
     let mut rep = Rep::new();
     std::panic::set_hook(Box::new(|_| {}));   // panics of the code under contract are reported as outcomes, not printed
+    if ["C02.format_member_or_option", "C02.format_sequence_member", "C02.format_choice_option", "C02.boxed_type"].iter().any(|p| obligation.starts_with(p)) { gen_members(&mut rep); return rep.finish("GEN_members"); }
     if obligation.starts_with("C14.format_enum_members") || obligation.starts_with("C05.format_enum_members") { gen_enum_members(&mut rep); return rep.finish("GEN_enum_members"); }
-    if ["C05.generate_", "C03.generate_"].iter().any(|p| obligation.starts_with(p)) { gen_blocks(&mut rep); return rep.finish("GEN_blocks"); }
+    if ["C05.generate_", "C03.generate_", "C05.member_extension", "C05.option_extension", "C02.generate_sequence_or_set_set_annotation", "C02.sequence_or_set_of_template"].iter().any(|p| obligation.starts_with(p)) { gen_blocks(&mut rep); gen_collections(&mut rep); return rep.finish("GEN_blocks"); }
     if ["C03.format_tag", "C06.width_to_tokens", "C04.format_range_annotations", "lemma.GEN_emission"].iter().any(|p| obligation.starts_with(p)) { gen_emission(&mut rep); return rep.finish("GEN_emission"); }
     if obligation.starts_with("C03.") { c03_apply_tagenv(&mut rep); return rep.finish("C03_apply_tagenv"); }
     if ["C02.link_components_of", "C05.link_components_of", "C02.has_components_of", "C05.lemma.", "C02.lemma."].iter().any(|p| obligation.starts_with(p)) { c02_components_of(&mut rep); return rep.finish("C02_components_of"); }
@@ -126,6 +127,68 @@ fn gen_emission(rep: &mut Rep) {
     } }
 }
 
+/// Native replay of unit GEN_members: format_sequence_member / format_choice_option (and through them format_member_or_option, boxed_type)
+/// on the real crate.  Expected: the field / variant text built from the member — type from the real component type table or the hoisted
+/// name (boxed when recursive), Option<_> exactly for OPTIONAL and groups, annotations in order extension, range, tag, default, identifier.
+fn gen_members(rep: &mut Rep) {
+    use rasn_compiler::verif_hooks::{hook_enum_identifier, hook_format_choice_option, hook_format_sequence_member, hook_inner_name, hook_snake, hook_type_table};
+    let nows = |s: &str| s.chars().filter(|c| !c.is_whitespace()).collect::<String>();
+    let boolean = || ASN1Type::Boolean(Boolean { constraints: vec![] });
+    let size = |lo: i128, hi: i128| Constraint::Subtype(ElementSetSpecs { set: ElementOrSetOperation::Element(SubtypeElements::SizeConstraint(Box::new(ElementOrSetOperation::Element(SubtypeElements::ValueRange { min: Some(ASN1Value::Integer(lo)), max: Some(ASN1Value::Integer(hi)), extensible: false })))), extensible: false });
+    let range = |lo: i128, hi: i128| Constraint::Subtype(ElementSetSpecs { set: ElementOrSetOperation::Element(SubtypeElements::ValueRange { min: Some(ASN1Value::Integer(lo)), max: Some(ASN1Value::Integer(hi)), extensible: false }), extensible: false });
+    let strings = [CharacterStringType::NumericString, CharacterStringType::PrintableString, CharacterStringType::VisibleString, CharacterStringType::IA5String, CharacterStringType::BMPString, CharacterStringType::UniversalString,
+                   CharacterStringType::UTF8String, CharacterStringType::GeneralString, CharacterStringType::GraphicString, CharacterStringType::TeletexString];
+    // (type, text, expected range annotation or "" , needs hoisting)
+    let mut types: Vec<(ASN1Type, String, String, bool)> = vec![
+        (boolean(), "BOOLEAN".into(), String::new(), false),
+        (ASN1Type::Integer(Integer { constraints: vec![range(-5, 5)], distinguished_values: None }), "INTEGER (-5..5)".into(), "value(\"-5..=5\")".into(), false),
+        (ASN1Type::ElsewhereDeclaredType(DeclarationElsewhere { parent: None, module: None, identifier: "Other".into(), constraints: vec![range(-5, 5)] }), "Other (-5..5)".into(), "value(\"-5..=5\")".into(), false),
+        (ASN1Type::ElsewhereDeclaredType(DeclarationElsewhere { parent: None, module: None, identifier: "Other".into(), constraints: vec![] }), "Other".into(), String::new(), false),
+        (ASN1Type::OctetString(OctetString { constraints: vec![size(1, 4)] }), "OCTET STRING (SIZE(1..4))".into(), "size(\"1..=4\")".into(), false),
+        (ASN1Type::Sequence(SequenceOrSet { components_of: vec![], extensible: None, constraints: vec![], members: vec![SequenceOrSetMember { name: "x".into(), tag: None, ty: boolean(), optionality: Optionality::Required, is_recursive: false, constraints: vec![] }] }), "SEQUENCE { x BOOLEAN }".into(), String::new(), true),
+        (ASN1Type::Choice(Choice { extensible: None, constraints: vec![], options: vec![ChoiceOption { name: "x".into(), tag: None, ty: boolean(), constraints: vec![], is_recursive: false }] }), "CHOICE { x BOOLEAN }".into(), String::new(), true),
+        (ASN1Type::SetOf(SequenceOrSetOf { constraints: vec![size(0, 3)], element_tag: None, element_type: Box::new(boolean()), is_recursive: false }), "SET (SIZE(0..3)) OF BOOLEAN".into(), "size(\"0..=3\")".into(), false),
+    ];
+    for st in strings { types.push((ASN1Type::CharacterString(CharacterString { constraints: vec![size(2, 5)], ty: st }), format!("{st:?} (SIZE(2..5))"), if strings[..6].contains(&st) { "size(\"2..=5\")".into() } else { String::new() }, false)); }
+    let names = ["f", "my-field", "type", "ext_group_f"];
+    for (ty, tt, want_range, hoisted) in &types { for name in names { for rec in [false, true] { for tagged in [false, true] { for ext in ["", "extension_addition"] {
+        let tag = if tagged { Some(AsnTag { environment: TaggingEnvironment::Explicit, tag_class: TagClass::Private, id: 77 }) } else { None };
+        let base_ty = if *hoisted { let n = hook_inner_name(name, "Parent"); if rec { format!("Box<{n}>") } else { n } } else { match hook_type_table(ty, name, "Parent", rec) { Ok(t) => nows(&t), Err(_) => continue } };
+        let tag_txt = if tagged { "tag(explicit(private,77))" } else { "" };
+        for opt in 0..3usize {
+            let optionality = match opt { 0 => Optionality::Required, 1 => Optionality::Optional, _ => Optionality::Default(ASN1Value::Null) };
+            let m = SequenceOrSetMember { name: name.into(), tag: tag.clone(), ty: ty.clone(), optionality, is_recursive: rec, constraints: vec![] };
+            let got = hook_format_sequence_member(&m, "Parent", ext);
+            let rust = hook_snake(name);
+            let is_group = name.starts_with("ext_group_");
+            let field_ty = if opt == 1 || is_group { format!("Option<{base_ty}>") } else { base_ty.clone() };
+            let d = || format!("component `{name} {tt}{}` recursive={rec} tagged={tagged} extension_annotation=[{ext}] -> {}", ["", " OPTIONAL", " DEFAULT NULL"][opt], match &got { Ok((t, _)) => nows(t), Err(e) => format!("ERR {e}") });
+            rep.check("C02.format_sequence_member.fails_only_when_a_callee_fails", got.is_ok(), d);
+            let Ok((text, _)) = &got else { continue; };
+            let t = nows(text);
+            rep.check("C02.format_sequence_member.one_field_with_its_annotations_name_and_type_option_exactly_for_optional_and_groups", t.ends_with(&format!("pub{rust}:{field_ty}")), d);
+            rep.check("C02.format_member_or_option.type_is_the_hoisted_name_boxed_when_recursive_or_the_table_entry", t.ends_with(&format!(":{field_ty}")), d);
+            let mut items: Vec<String> = vec![];
+            if !ext.is_empty() { items.push(ext.into()); }
+            if !want_range.is_empty() && !*hoisted { items.push(want_range.clone()); }
+            if tagged { items.push(tag_txt.into()); }
+            if opt == 2 { items.push("default=\"".to_string()); }
+            let attr = &t[..t.rfind("pub").unwrap_or(0)];
+            // the listed items occur in this order; alphabet annotations (not under contract) may sit between them
+            let mut pos = 0usize; let mut ordered = true;
+            for it in &items { match attr[pos..].find(it.as_str()) { Some(p) => pos += p + it.len(), None => { ordered = false; break; } } }
+            let no_extra = (ext.is_empty() == !attr.contains("extension_addition")) && (tagged == attr.contains("tag(")) && ((opt == 2) == attr.contains("default=")) && ((!want_range.is_empty() && !*hoisted) == (attr.contains("size(") || attr.contains("value(")))
+                && ((rust != name || is_group) == attr.contains("identifier="));
+            rep.check("C02.format_member_or_option.annotations_extension_range_alphabet_own_tag_default_identifier_in_order", ordered && no_extra, d);
+        }
+        let o = ChoiceOption { name: name.into(), tag: tag.clone(), ty: ty.clone(), constraints: vec![], is_recursive: rec };
+        let got = hook_format_choice_option(&o, "Parent", ext);
+        let d = || format!("alternative `{name} {tt}` recursive={rec} tagged={tagged} extension_annotation=[{ext}] -> {}", match &got { Ok(t) => nows(t), Err(e) => format!("ERR {e}") });
+        rep.check("C02.format_choice_option.fails_only_when_a_callee_fails", got.is_ok(), d);
+        if let Ok(t) = &got { rep.check("C02.format_choice_option.one_variant_with_its_annotations_name_and_type", nows(t).ends_with(&format!("{}({base_ty}),", hook_enum_identifier(name))), d); }
+    } } } } }
+}
+
 /// Native replay of unit GEN_enum_members: Rasn::format_enum_members on the real crate; expected text built from the enumerals
 /// (identifier through the real to_rust_enum_identifier, which the unit leaves uninterpreted), compared white-space-free.
 fn gen_enum_members(rep: &mut Rep) {
@@ -152,6 +215,21 @@ fn gen_enum_members(rep: &mut Rep) {
         rep.check("C14.format_enum_members.fails_only_when_joining_annotations_fails", got.is_ok(), d);
         if let Ok(t) = &got { rep.check("C14.format_enum_members.one_variant_per_enumeral_in_order_with_its_own_number_and_annotations", nows(t) == want, d); }
     }
+}
+
+fn gen_collections(rep: &mut Rep) {
+    use rasn_compiler::verif_hooks::hook_generate_type;
+    let nows = |s: &str| s.chars().filter(|c| !c.is_whitespace()).collect::<String>();
+    for env in [TaggingEnvironment::Automatic, TaggingEnvironment::Implicit, TaggingEnvironment::Explicit] { for is_set in [false, true] { for elem in 0..3usize {
+        let element = match elem { 0 => ASN1Type::Boolean(Boolean { constraints: vec![] }), 1 => ASN1Type::ElsewhereDeclaredType(DeclarationElsewhere { parent: None, module: None, identifier: "Other".into(), constraints: vec![] }),
+            _ => ASN1Type::SetOf(SequenceOrSetOf { constraints: vec![], element_tag: None, element_type: Box::new(ASN1Type::Boolean(Boolean { constraints: vec![] })), is_recursive: false }) };
+        let of = SequenceOrSetOf { constraints: vec![], element_tag: None, element_type: Box::new(element), is_recursive: false };
+        let ty = if is_set { ASN1Type::SetOf(of) } else { ASN1Type::SequenceOf(of) };
+        let got = hook_generate_type(env, false, &ty, None);
+        let d = || format!("module_default={env:?} T ::= {} OF <element kind {elem}> -> {}", if is_set { "SET" } else { "SEQUENCE" }, match &got { Ok(t) => nows(t), Err(e) => format!("ERR {e}") });
+        let ok = matches!(&got, Ok(t) if nows(t).contains(&format!("pubstructT(pub{}<", if is_set { "SetOf" } else { "SequenceOf" })));
+        rep.check("C02.sequence_or_set_of_template.set_of_is_a_SetOf_and_sequence_of_a_SequenceOf_of_the_member_type", ok, d);
+    } } }
 }
 
 /// Native replay of unit GEN_blocks: the statement blocks of generate_enumerated / generate_choice / generate_sequence_or_set are
@@ -187,6 +265,19 @@ fn gen_blocks(rep: &mut Rep) {
                     let ne = ["C05.generate_sequence_or_set_non_exhaustive.exactly_with_a_marker_or_extensibility_implied", "C05.generate_sequence_or_set_non_exhaustive.exactly_with_a_marker_or_extensibility_implied",
                               "C05.generate_choice_non_exhaustive.exactly_with_a_marker_or_extensibility_implied", "C05.generate_enumerated_non_exhaustive.exactly_with_a_marker_or_extensibility_implied"][kind];
                     rep.check(ne, h.contains("#[non_exhaustive]") == want_ne, d);
+                    if kind <= 1 { rep.check("C02.generate_sequence_or_set_set_annotation.set_annotation_exactly_for_a_set", (h.contains("rasn(set") || h.contains(",set,") || h.contains(",set)")) == (kind == 1), d); }
+                    if kind <= 2 {
+                        // extension_addition exactly on the members from the first-addition index on
+                        let t = nows(text);
+                        let ok = (0..n).all(|i| {
+                            let field = if kind == 2 { format!("f{i}(bool)") } else { format!("pubf{i}:bool") };
+                            let Some(pos) = t.find(&field) else { return false; };
+                            let before = &t[..pos];
+                            let attr = before.rfind(if kind == 2 { "bool)," } else { "bool," }).map_or(&before[before.find('{').map_or(0, |p| p + 1)..], |p| &before[p..]);
+                            attr.contains("extension_addition") == marker.map_or(false, |k| i >= k)
+                        });
+                        rep.check(if kind == 2 { "C05.option_extension_annotation.exactly_the_alternatives_from_the_first_addition_index_on" } else { "C05.member_extension_annotation.exactly_the_components_from_the_first_addition_index_on_and_groups_as_groups" }, ok, d);
+                    }
                     if kind <= 2 {
                         let want_auto = env == TaggingEnvironment::Automatic && tagged_mask == 0;
                         let (yes, no) = if kind == 2 { ("C03.generate_choice_automatic_tags.automatic_module_and_no_tagged_alternative_gives_automatic_tags", "C03.generate_choice_automatic_tags.otherwise_no_automatic_tags") }
